@@ -133,9 +133,15 @@ Definition remove_blocker_include_in_simplex (c : cplx) (sigma : simplex) : cplx
                let c1 := delete_blocker c b in
                fold_left (fun c x => if ssub x sigma then c else add_blocker c x) (coboundary c1 b) c1)
             to_remove c.
-(* add_simplex: precondition (asserted by the C++): dimension > 1, not yet a simplex; all vertices present *)
+(* add_simplex: precondition (asserted by the C++): dimension > 1, not yet a simplex.  Vertices of sigma that do not exist yet
+   (numbers >= slots) are created first, together with the slots below them ("Some vertices were not present in the complex,
+   adding them"); the count is last_vertex - <number of slots> + 1 after the repair (the source as found subtracted
+   num_vertices(), the number of ACTIVE vertices, and so created one spurious vertex per deactivated slot). *)
+Definition add_vertices (c : cplx) (n : nat) : cplx := Nat.iter n add_vertex c.
 Definition add_simplex (c : cplx) (sigma : simplex) : cplx :=
-  let c1 := if contains_edges c sigma then c else add_edges_of_simplex c sigma in
+  let c0 := if forallb (contains_vertex c) sigma then c
+            else add_vertices c (Z.to_nat (last sigma (-1) - slots c + 1)) in
+  let c1 := if contains_edges c0 sigma then c0 else add_edges_of_simplex c0 sigma in
   let c2 := remove_blocker_include_in_simplex c1 sigma in
   add_blockers_after_simplex_insertion c2 sigma.
 
@@ -249,8 +255,10 @@ Definition spec_fill (k : list simplex) (a b : Z) : list simplex :=
   k ++ news.
 Definition spec_add_edge_fill (k : acplx) (a b : Z) : acplx :=
   if kmem [Z.min a b; Z.max a b] (snd k) then k else (fst k, spec_fill (snd k) a b).
+(* the vertices of s numbered >= slots are created, with all slots below them (vertex numbers are contiguous) *)
 Definition spec_add_simplex (k : acplx) (s : simplex) : acplx :=
-  (fst k, snd k ++ filter (fun f => negb (kmem f (snd k))) (faces s)).
+  let k0 := Nat.iter (Z.to_nat (last s (-1) - fst k + 1)) spec_add_vertex k in
+  (fst k0, snd k0 ++ filter (fun f => negb (kmem f (snd k0))) (faces s)).
 Definition spec_remove_star (k : acplx) (s : simplex) : acplx :=
   (fst k, filter (fun t => negb (ssub s t)) (snd k)).
 (* contraction of ab = image of the complex under the vertex map b |-> a (the simplices that the C++ frees first by
